@@ -168,7 +168,7 @@ def remote_probe(ctx, rep, mine, deployments=DEPLOYMENTS):
             _viol(rep, 'restore_mismatch', f'the remaining snapshot does not restore: {out["restored"]}', dep)
 
 
-def remote_fault_probe(ctx, rep, mine, n=6, focus=None):
+def remote_fault_probe(ctx, rep, mine, n=6, focus=None, prefer_exists=False):
     """C03 over the remote adapters: from some request on, one kind of request (uploads / deletions / existence checks) is answered
     with an error for good (401, 403, 500, 503) while a snapshot or a delete runs.  Whatever the command reports, once the service
     is healthy again every snapshot that is visible must have all its chunks and restore, and a new snapshot + clean must work."""
@@ -184,6 +184,9 @@ def remote_fault_probe(ctx, rep, mine, n=6, focus=None):
         else:
             op = rng.choice(['PUT', 'PUT', 'HEAD']) if victim == 'snapshot' else rng.choice(['DELETE', 'LIST'])
             kinds = ['500', '503', '403', '401']
+        if prefer_exists and victim == 'snapshot' and trial % 2 == 0:
+            # the existence check of a chunk is the call that fails (throttled, refused): "is it there?" has no answer
+            op = 'head' if dep.startswith('b2') else 'HEAD'
         kind = rng.choice(kinds)
         skip = rng.choice([0, 0, 1, 2, 3, 5])
         wd = Path(ctx.scratch) / f'remote-fault-{trial}'
